@@ -363,21 +363,22 @@ Proof.
   apply nth_z_Some_lt in Hx. rewrite app_length in Hx. lia.
 Qed.
 
-Lemma parse_aseq_loop_nc tbl : forall tables adv seqs known,
-  forallb tab_ok tables = true -> Forall (idx_ok (length known)) seqs ->
+Lemma parse_aseq_loop_nc tbl : forall tables adv (seqs : list tkey) known,
+  forallb tab_ok tables = true -> Forall (fun k : tkey => idx_ok (length known) (fst k)) seqs ->
   match parse_aseq_loop tbl tables adv seqs known with
   | Ok p => Forall (idx_ok (length (p_wfs p))) (p_seqs p)
   | Err e => e <> ECrash
   end.
 Proof.
-  induction tables as [|t r IH]; intros adv seqs known H HS; cbn [parse_aseq_loop]; [exact HS|].
-  cbn [forallb] in H. apply andb_prop in H as [Ht Hr]. apply tab_ok_inv in Ht as [_ Ht].
-  pose proof (parse_table_nc tbl (l_ch t) known Ht) as HP. unfold bind.
-  destruct (parse_table tbl (l_ch t) known) as [[es known1]|e]; [|exact HP]. destruct HP as [L I].
-  destruct (setdefault table_eqb es seqs) as [sidx seqs'] eqn:Es.
-  apply IH; [exact Hr|]. apply Forall_forall. intros x Hx.
-  destruct (setdefault_In _ _ _ _ _ Es x Hx) as [Hin| ->]; [|exact I].
-  rewrite Forall_forall in HS. eapply idx_ok_mono; [exact L|auto].
+  induction tables as [|t r IH]; intros adv seqs known H HS; cbn [parse_aseq_loop].
+  - cbn [p_wfs p_seqs]. apply Forall_map. exact HS.
+  - cbn [forallb] in H. apply andb_prop in H as [Ht Hr]. apply tab_ok_inv in Ht as [_ Ht].
+    pose proof (parse_table_nc tbl (l_ch t) known Ht) as HP. unfold bind.
+    destruct (parse_table tbl (l_ch t) known) as [[es known1]|e]; [|exact HP]. destruct HP as [L I].
+    destruct (setdefault tkey_eqb (es, map l_volp (l_ch t)) seqs) as [sidx seqs'] eqn:Es.
+    apply IH; [exact Hr|]. apply Forall_forall. intros x Hx.
+    destruct (setdefault_In _ _ _ _ _ Es x Hx) as [Hin| ->]; [|exact I].
+    rewrite Forall_forall in HS. eapply idx_ok_mono; [exact L|auto].
 Qed.
 
 Lemma Forall2_length' {A B} (P : A -> B -> Prop) l1 l2 : Forall2 P l1 l2 -> length l1 = length l2.
